@@ -554,8 +554,14 @@ def run(ctx):
                        "x86-64 builds presume SSE and SSE2: in the float build xcorr_kernel/celt_inner_prod/dual_inner_prod/comb_filter_const (SSE) and op_pvq_search (SSE2) run at "
                        "every arch level; they are compared with the portable C kernels at kernel level only (whole-codec twins cannot tell them apart)",
                        "arch levels above what this CPU supports cannot be exercised (top level recorded in the evidence)",
-                       "integer kernels with structured arguments (NSQ, delayed-decision NSQ, LTP codebook search, VAD, Burg) are compared on the arguments the codec passes "
-                       "during the replayed histories, not on synthetic ones",
+                       "integer kernels with structured arguments (NSQ, delayed-decision NSQ, LTP codebook search, Burg) are compared on the arguments the codec passes "
+                       "during the replayed histories, not on synthetic ones; the VAD is also driven synthetically (9 signal families up to digital full scale, 8/12/16 kHz, "
+                       "10/20 ms, state carried over >= 26 frames)",
+                       "signal families of the replayed histories: speech-like, full-scale square waves, hard-clipped noise, alternating +-32767 at Nyquist/2 and /4 (sustained), and - "
+                       "float build - float input with NaN / Inf / huge samples; the sanitizer builds replay the speech-like family only (UBSan stops in portable code outside the "
+                       "dispatched kernels on full-scale hard-clipped input, e.g. src/analysis.c:152, which is not a C15 clause)",
+                       "float kernels on non-finite data (NaN / Inf terms): nothing is demanded (reassociation error is undefined); PVQ search on degenerate vectors: K pulses always, and "
+                       "exactly the portable codeword when the kernels project (K > N/2)",
                        "float tolerance: |SIMD - C| <= (2n+4) * 2^-24 * sum|terms| (worst-case reassociation bound; the recursive in-place comb filter is measured against the largest term of the call over N/T+1 periods); PVQ search: K pulses and energy exact, "
                        "match with the input at most 0.1 lower than the portable vector's (calibrated, R3: worst observed 0.032 over the thorough tier); no tolerance is asserted on float-build PCM between levels that differ in float kernels "
                        "(the measured maximum is recorded)"]
@@ -657,7 +663,7 @@ META = dict(
                 "result are recorded and TLC demands bit-identity for integer kernels and the reassociation bound for float kernels."),
     level_note=("Trusted: TLC, the Json module, the harness's difference measurement for float kernels. NOT covered: kernel equivalence over all argument shapes (only the shapes "
                 "the replayed histories and the synthetic driver produce); NSQ / delayed-decision NSQ / LTP search / VAD / Burg only on codec-passed arguments; float kernels only up to the "
-                "stated bounds; the PVQ search kernel uses reciprocal-square-root estimates, so its pulse vector may legitimately differ and only K pulses, energy and a calibrated "
+                "stated bounds and only on finite data; the PVQ search kernel uses reciprocal-square-root estimates, so its pulse vector may legitimately differ and only K pulses, energy and a calibrated "
                 "quality margin are demanded; in x86-64 float builds SSE/SSE2 kernels are presumed at compile time, so arch levels 0-2 are the same code and a deviant AVX2 integer kernel "
                 "is visible to whole-codec twins only in the fixed-point build (TLC shows this on the model); levels above the host CPU's are not exercised; NaN/Inf inputs to float "
                 "kernels are not driven; ARM/MIPS dispatch is out of scope."),
